@@ -85,6 +85,22 @@ func init() {
 				{File: sl, Old: "\ttmpFile := m.stateFile + \".tmp\"\n\tif err := os.WriteFile(tmpFile, data, 0600); err != nil {\n\t\treturn err\n\t}\n\tif err := os.Rename(tmpFile, m.stateFile); err != nil {\n\t\tos.Remove(tmpFile)\n\t\treturn err\n\t}\n\treturn nil\n}\n", New: "\treturn m.c30ReplaceFile(data)\n}\n\nfunc (m *Manager) c30ReplaceFile(data []byte) error {\n\ttmpFile := m.stateFile + \".tmp\"\n\tif err := os.WriteFile(tmpFile, data, 0600); err != nil {\n\t\treturn err\n\t}\n\tif err := os.Rename(tmpFile, m.stateFile); err != nil {\n\t\tos.Remove(tmpFile)\n\t\treturn err\n\t}\n\treturn nil\n}\n\nfunc (m *Manager) c30PersistIfOn() {\n\tif !m.cfg.PersistState {\n\t\treturn\n\t}\n\tif err := m.persistState(); err != nil {\n\t\tm.logger.Debug(\"failed to persist sleep state\", logging.KeyError, err)\n\t}\n}\n\nfunc (m *Manager) c30Restore(saved PersistedState) {\n\tm.state.Store(saved.State)\n\tm.sleepStartTime = saved.SleepStartTime\n\tm.lastPollTime = saved.LastPollTime\n\tm.commandSeq.Store(saved.CommandSeq)\n}\n"},
 				{File: sl, Old: "\tm.state.Store(state.State)\n\tm.sleepStartTime = state.SleepStartTime\n\tm.lastPollTime = state.LastPollTime\n\tm.commandSeq.Store(state.CommandSeq)\n\n\treturn nil\n", New: "\tm.c30Restore(state)\n\treturn nil\n"},
 			}},
+			{Name: "seeded class: write skipped when the snapshot equals a remembered last-written snapshot", ExpectRule: "C30.R4", ExpectKey: "persistState writes", Edits: []Edit{
+				{File: sl, Old: "\tdata, err := json.MarshalIndent(state, \"\", \"  \")\n\tif err != nil {\n\t\treturn err\n\t}\n\n\t// Write to a temporary file", New: "\tif state == c30LastWritten {\n\t\treturn nil\n\t}\n\tdefer func() { c30LastWritten = state }()\n\n\tdata, err := json.MarshalIndent(state, \"\", \"  \")\n\tif err != nil {\n\t\treturn err\n\t}\n\n\t// Write to a temporary file"},
+				{File: sl, Old: "// LoadState loads persisted state from disk.\n", New: "var c30LastWritten PersistedState\n\n// LoadState loads persisted state from disk.\n"},
+			}},
+			{Name: "write skipped while awake (only sleeping states are persisted)", ExpectRule: "C30.R4", ExpectKey: "writes the state file", Edits: []Edit{
+				{File: sl, Old: "\tdata, err := json.MarshalIndent(state, \"\", \"  \")\n\tif err != nil {\n\t\treturn err\n\t}\n\n\t// Write to a temporary file", New: "\tif state.State == StateAwake && state.SleepStartTime.IsZero() && m.lastPollTime.IsZero() {\n\t\treturn nil\n\t}\n\n\tdata, err := json.MarshalIndent(state, \"\", \"  \")\n\tif err != nil {\n\t\treturn err\n\t}\n\n\t// Write to a temporary file"},
+			}},
+			{Name: "rewrite: writer returns early when no state file is configured", Edits: []Edit{
+				{File: sl, Old: "\tdata, err := json.MarshalIndent(state, \"\", \"  \")\n\tif err != nil {\n\t\treturn err\n\t}\n\n\t// Write to a temporary file", New: "\tif m.stateFile == \"\" {\n\t\treturn nil\n\t}\n\n\tdata, err := json.MarshalIndent(state, \"\", \"  \")\n\tif err != nil {\n\t\treturn err\n\t}\n\n\t// Write to a temporary file"},
+			}},
+			{Name: "Wake persists asynchronously", ExpectRule: "C30.R4", ExpectKey: "Wake", Edits: []Edit{
+				{File: sl, Old: "\t// Clear queue\n\tm.queue.Clear()\n\n\t// Persist state\n\tif m.cfg.PersistState {\n\t\tif err := m.persistState(); err != nil {\n\t\t\tm.logger.Debug(\"failed to persist sleep state\", logging.KeyError, err)\n\t\t}\n\t}\n", New: "\t// Clear queue\n\tm.queue.Clear()\n\n\t// Persist state\n\tif m.cfg.PersistState {\n\t\tgo m.persistState()\n\t}\n"},
+			}},
+			{Name: "state written to a side file instead of the restored one", ExpectRule: "C30.R4", ExpectKey: "restore reads", Edits: []Edit{
+				{File: sl, Old: "\tif err := os.Rename(tmpFile, m.stateFile); err != nil {", New: "\tif err := os.Rename(tmpFile, m.stateFile+\".new\"); err != nil {"},
+			}},
 			{Name: "rewrite: Sleep guard as a switch, explicit unlocks", Edits: []Edit{
 				{File: sl, Old: "\tcurrentState := m.state.Load().(State)\n\tif currentState == StateSleeping || currentState == StatePolling {\n\t\treturn ErrAlreadySleeping\n\t}", New: "\tswitch m.GetState() {\n\tcase StateAwake:\n\tdefault:\n\t\treturn ErrAlreadySleeping\n\t}"},
 			}},
@@ -653,7 +669,7 @@ func runC30(p *kit.Program, r *kit.Report) {
 	r.Rule("C30.R1", "every constant store to the Manager's state happens under the write lock of the state mutex, and the states possible at the store (from state loads in the same critical section) are legal predecessors of the stored state")
 	r.Rule("C30.R2", "Sleep in state sleeping/polling and Wake in state awake return a non-nil error, store no state and invoke no callback")
 	r.Rule("C30.R3", "OnSleep/OnWake/OnPollEnd and function parameters of Manager methods are invoked under the write lock in their source states only; the agent's OnPoll callback disconnects peers / closes listeners only inside a function the Manager runs under the lock in state polling, or on its shutdown branch")
-	r.Rule("C30.R4", "every constant state store is followed, before the critical section ends, by the state-file writer (persistence enabled)")
+	r.Rule("C30.R4", "every constant state store is followed, before the critical section ends, by the state-file writer (persistence enabled); the writer and its wrappers return success only after the file write has executed — a success return that skips the write is allowed only under a guard on immutable configuration, never on remembered state")
 	cx := c30NewCtx(p, r)
 	if cx == nil {
 		return
@@ -774,8 +790,8 @@ func runC30(p *kit.Program, r *kit.Report) {
 			}
 			if c, isCall := in.(ssa.CallInstruction); isCall {
 				if cal := kit.CalleeOf(c); cal.Static != nil && cx.persists(cal.Static, 3) {
-					if _, isDefer := in.(*ssa.Defer); !isDefer {
-						return false // satisfied on this path
+					if _, isPlain := in.(*ssa.Call); isPlain {
+						return false // satisfied on this path (a `go` or `defer` is not: it runs later)
 					}
 				}
 			}
@@ -819,6 +835,85 @@ func runC30(p *kit.Program, r *kit.Report) {
 		r.Decide(bad == "", "C30.R4", s.label, pos,
 			"the state-file writer is called on every path before the critical section ends",
 			"after this state store "+bad+" without the state file having been written: after a crash the persisted state differs from the state of the completed transition")
+	}
+
+	// ---- R4 (writer side): success implies written
+	var writers []*ssa.Function
+	for _, fn := range cx.fns {
+		if fn.Parent() == nil && cx.persists(fn, 3) {
+			writers = append(writers, fn)
+		}
+	}
+	r.Count("state_file_writer_functions", len(writers))
+	for _, fn := range writers {
+		bad, pos := cx.skipsWrite(fn)
+		if pos == "" {
+			pos = p.Pos(fn.Pos())
+		}
+		r.Decide(bad == "", "C30.R4", kit.FuncName(fn)+" writes the state file on every successful path", pos,
+			"every path that returns success has executed the file write (or a writer that has)",
+			bad+": the transition completes and reports success although the state file was not written; the condition is not immutable configuration, so what is remembered can differ from what is on disk (restart restores from the file, failed rename, external change) and the persisted state no longer matches the state after the transition")
+	}
+
+	// ---- R4 (writer side): what is written, and where, is what the restore reads
+	var restoreField *types.Var
+	for _, fn := range cx.fns {
+		for _, c := range kit.Calls(fn) {
+			if cal := kit.CalleeOf(c); cal.Pkg == "os" && cal.Name == "ReadFile" && len(c.Common().Args) > 0 {
+				kit.Slice(c.Common().Args[0], kit.SliceOpts{Prog: p, Visit: func(v ssa.Value) {
+					if f, _ := kit.LoadedField(v); f != nil && c28FieldOwner(f, cx.mgr) {
+						restoreField = f
+					}
+				}})
+			}
+		}
+	}
+	for _, fn := range writers {
+		if !cx.persistF[fn] {
+			continue
+		}
+		// destination of the completing file operation
+		var dest ssa.Value
+		var destPos string
+		for _, c := range kit.Calls(fn) {
+			cal := kit.CalleeOf(c)
+			if cal.Pkg != "os" {
+				continue
+			}
+			switch {
+			case cal.Name == "Rename" && len(c.Common().Args) == 2:
+				dest, destPos = c.Common().Args[1], p.Pos(c.Pos())
+			case (cal.Name == "WriteFile" || cal.Name == "Create" || cal.Name == "OpenFile") && dest == nil && len(c.Common().Args) > 0:
+				dest, destPos = c.Common().Args[0], p.Pos(c.Pos())
+			}
+		}
+		if dest != nil && restoreField != nil {
+			f, _ := kit.LoadedField(dest)
+			r.Decide(f == restoreField, "C30.R4", kit.FuncName(fn)+" writes the file the restore reads", destPos,
+				"the completing file operation targets exactly Manager."+restoreField.Name(),
+				"the state is written to a path that is not exactly Manager."+restoreField.Name()+", the file the start-up restore reads: after a restart the agent restores an older state than the one of the last completed transition")
+		}
+	}
+	for _, fn := range writers {
+		// the marshalled snapshot reads the state inside the writer chain
+		for _, c := range kit.Calls(fn) {
+			cal := kit.CalleeOf(c)
+			if cal.Pkg != "encoding/json" || !strings.HasPrefix(cal.Name, "Marshal") || len(c.Common().Args) == 0 {
+				continue
+			}
+			fresh := false
+			for _, src := range kit.Slice(c.Common().Args[0], kit.SliceOpts{Prog: p, FollowCall: func(cc ssa.CallInstruction) bool {
+				cl := kit.CalleeOf(cc)
+				return cl.Static != nil && kit.FuncPkgPath(cl.Static) == kit.PkgPath(c30Sleep)
+			}}) {
+				if src.Kind == kit.SrcCall && cx.stateLoad(src.Call) {
+					fresh = true
+				}
+			}
+			r.Decide(fresh, "C30.R4", kit.FuncName(fn)+" snapshots the current state", p.Pos(c.Pos()),
+				"the marshalled snapshot takes the state from a load of the state field inside the writer",
+				"the marshalled snapshot does not read the Manager's state itself (a value captured earlier or passed in is written): the file can carry the state from before the transition")
+		}
 	}
 
 	// ---- R2 refusals
@@ -1005,6 +1100,102 @@ func (cx *c30Ctx) persists(fn *ssa.Function, depth int) bool {
 	v := ok && found && !run.Truncated
 	cx.persistMemo[fn] = v
 	return v
+}
+
+// skipsWrite explores a state-file writer (or a wrapper of one) with persistence enabled and
+// reports a return that signals success (nil error / plain return) on a path that executed
+// neither the final file operation of fn nor a call of another writer. Such a return is
+// tolerated only under a guard that reads nothing but immutable configuration of the Manager.
+func (cx *c30Ctx) skipsWrite(fn *ssa.Function) (string, string) {
+	p := cx.p
+	// the file operation that completes the write in fn: Rename if there is one, else the
+	// last-listed write/create call
+	var final ssa.Instruction
+	for _, c := range kit.Calls(fn) {
+		cal := kit.CalleeOf(c)
+		if cal.Pkg != "os" {
+			continue
+		}
+		switch cal.Name {
+		case "Rename":
+			final = c
+		case "WriteFile", "Create", "OpenFile":
+			if final == nil || kit.CalleeOf(final.(ssa.CallInstruction)).Name != "Rename" {
+				final = c
+			}
+		}
+	}
+	errRes := false
+	if res := fn.Signature.Results(); res.Len() > 0 && kit.IsErrorType(res.At(res.Len()-1).Type()) {
+		errRes = true
+	}
+	bad, badPos := "", ""
+	cfg := cx.pxConfig(-1)
+	cfg.Visit = func(fr *kit.PxFrame, in ssa.Instruction) bool {
+		if fr.Depth > 0 {
+			return true
+		}
+		if in == final {
+			return false // written (its own error handling follows)
+		}
+		if c, isCall := in.(*ssa.Call); isCall {
+			if cal := kit.CalleeOf(c); cal.Static != nil && cal.Static != fn && cx.persists(cal.Static, 3) {
+				return false // delegated to another writer, judged on its own
+			}
+		}
+		return true
+	}
+	cfg.Return = func(fr *kit.PxFrame, ret *ssa.Return, res []kit.PxVal) {
+		if ret.Block() == fn.Recover {
+			return
+		}
+		if errRes && len(res) > 0 && res[len(res)-1].NonNilLike() {
+			return // a failure is reported
+		}
+		if cx.configOnlyGuard(ret) {
+			return
+		}
+		bad, badPos = "the return at "+p.Pos(ret.Pos())+" is reached without the file write", p.Pos(ret.Pos())
+	}
+	args := []kit.PxVal{}
+	if fn.Signature.Recv() != nil {
+		args = append(args, kit.PxS("recv"))
+	}
+	if run := kit.PathxExplore(fn, args, cfg); run.Truncated {
+		return "", ""
+	}
+	return bad, badPos
+}
+
+// configOnlyGuard: the instruction is dominated by a branch whose condition reads at least one
+// field and only fields that are never stored outside the construction of their struct
+// (persistence switched off, no state file configured) — not remembered, mutable state.
+func (cx *c30Ctx) configOnlyGuard(in ssa.Instruction) bool {
+	p := cx.p
+	for _, g := range kit.GuardsOf(in) {
+		nFields, mutable := 0, false
+		kit.Slice(g.Cond, kit.SliceOpts{Prog: p, Visit: func(v ssa.Value) {
+			f, _ := kit.LoadedField(v)
+			if f == nil {
+				if c, ok := v.(*ssa.Call); ok {
+					if cal := kit.CalleeOf(c); cal.Pkg == "sync/atomic" || cal.Static != nil && kit.IsRepoPkg(cal.Pkg) {
+						mutable = true // atomics and repository calls may read mutable state
+					}
+				}
+				return
+			}
+			nFields++
+			for _, acc := range p.FieldAccessesOfKind(f, kit.FieldStore, kit.FieldAddrUse) {
+				if _, fresh := c28Root(acc.Base).(*ssa.Alloc); !fresh {
+					mutable = true
+				}
+			}
+		}})
+		if nFields > 0 && !mutable {
+			return true
+		}
+	}
+	return false
 }
 
 // c30Restores: fn reads the persisted state (os.ReadFile / json.Unmarshal), or is a helper all of
